@@ -303,10 +303,8 @@ let pb_store_str (p : M.pb_store) : string =
   Printf.sprintf "bins=%s off=%s contig=%s"
     (String.concat "," (List.map (fun (i, w) -> Z.to_string (to_z i) ^ ":" ^ fstr_f w) ents))
     (Z.to_string (to_z p.M.contiguous_offset)) (String.concat "," (List.map fstr_f p.M.contiguous_counts))
-let pb_of_store (s : M.store) : M.pb_store =
-  match s with
-  | M.SD d -> (match M.to_proto_d d with Some r -> M.pb_of_dense_proto r | None -> failwith "panic")
-  | _ -> (match M.st_foreach s with Some (_, l) -> M.to_proto_sparse l | None -> failwith "panic")
+(* ToProto / MergeWithProto / FromProto are the Coq functions of Wire/ProtoB.v (theorems: Props/Misc.v C09_b_...) *)
+let pb_of_store (s : M.store) : M.pb_store = match M.st_to_proto s with Some r -> r | None -> failwith "panic"
 let pb_sketch_str (p : M.pb_sketch) : string =
   let st = function Some s -> "[" ^ pb_store_str s ^ "]" | None -> "nil" in
   Printf.sprintf "map=%s zero=%s pos=%s neg=%s"
@@ -315,14 +313,8 @@ let pb_sketch_str (p : M.pb_sketch) : string =
 let pb_mapping_str (m : M.pb_mapping) : string =
   let i = to_zn m.M.pm_interp in let i = if Z.geq i (Z.shift_left Z.one 31) then Z.sub i (Z.shift_left Z.one 32) else i in
   Printf.sprintf "%s:%s:%s" (Z.to_string i) (xstr m.M.pm_gamma) (xstr m.M.pm_offset)
-let pb_of_sketch (s : M.sketch) : M.pb_sketch =
-  { M.ps_mapping = Some { M.pm_gamma = s.M.sk_map.M.mk_gamma; M.pm_offset = s.M.sk_map.M.mk_off; M.pm_interp = s.M.sk_map.M.mk_kind };
-    M.ps_pos = Some (pb_of_store s.M.sk_pos); M.ps_neg = Some (pb_of_store s.M.sk_neg); M.ps_zero = M.q2f s.M.sk_zero }
-(* MergeWithProto: map entries (last duplicate wins), then contiguous counts *)
-let merge_with_proto (s : M.store) (p : M.pb_store) : M.store option =
-  let adds = List.map (fun (i, w) -> (i, M.f2q w)) (M.pb_map_view p.M.bin_counts)
-             @ List.mapi (fun k w -> (z_of (Z.add (to_z p.M.contiguous_offset) (Z.of_int k)), M.f2q w)) p.M.contiguous_counts in
-  List.fold_left (fun acc (i, w) -> match acc with None -> None | Some st -> M.st_addw st i w) (Some s) adds
+let pb_of_sketch (s : M.sketch) : M.pb_sketch = match M.sk_to_proto s with Some r -> r | None -> failwith "panic"
+let merge_with_proto (s : M.store) (p : M.pb_store) : M.store option = M.st_merge_with_proto_go s p
 let parse_protomk (toks : string list) : M.pb_store =
   let get k = field toks k in
   let bins = (match get "bins" with "" -> [] | b -> List.map (fun e -> match String.split_on_char ':' e with [i; w] -> (z_of_tok i, f64_of_hex w) | _ -> raise Unsupported) (String.split_on_char ',' b)) in
@@ -409,22 +401,16 @@ let exec_proto (toks : string list) (side : string list) : string =
   | ["kpunmarshal"; p; b] ->
     (match M.parse_sketch (bytes_of_string (get_bytes b)) with Some m -> Hashtbl.replace psketches p m; "ok" | None -> "err other")
   | ["kfromproto"; k; p; kind] ->
-    let msg = Hashtbl.find psketches p in
-    (match msg.M.ps_mapping with
-     | None -> "err nil-proto"
-     | Some pm ->
-       let kk = Z.to_int (to_zn pm.M.pm_interp) in
-       if not (kk = 0 || kk = 1 || kk = 3) then "err other"
-       else if M.fle pm.M.pm_gamma (f64_of_hex "3ff0000000000000") then "err bad-gamma"
-       else
-         let fresh () = M.st_new (parse_kind (if kind = "default" then "pag" else kind)) in
-         let fill o = (match o with Some sp -> merge_with_proto (fresh ()) sp | None -> Some (fresh ())) in
-         (match fill msg.M.ps_pos, fill msg.M.ps_neg, side_map side with
-          | Some ps, Some ns, Some (_, mn, mx) ->
-            let id = { M.mk_kind = pm.M.pm_interp; M.mk_gamma = pm.M.pm_gamma; M.mk_off = pm.M.pm_offset } in
-            Hashtbl.replace sketches k (new_reg mn mx (Some { M.sk_map = id; M.sk_pos = ps; M.sk_neg = ns; M.sk_zero = M.f2q msg.M.ps_zero; M.sk_stats = None })); "ok"
-          | None, _, _ | _, None, _ -> "panic"
-          | _, _, None -> raise Unsupported))
+    let kd = parse_kind (if kind = "default" then "pag" else kind) in
+    (match M.sk_from_proto kd kd (Hashtbl.find psketches p) with
+     | M.RErr M.EMissingMapping -> "err nil-proto"
+     | M.RErr M.EBadGamma -> "err bad-gamma"
+     | M.RErr _ -> "err other"
+     | M.RPanic -> "panic"
+     | M.ROk sk ->
+       (match side_map side with
+        | Some (_, mn, mx) -> Hashtbl.replace sketches k (new_reg mn mx (Some sk)); "ok"
+        | None -> raise Unsupported))
   | ["kpmk"; p; interp; gamma; off; zero; pp; np] ->
     let st x = if x = "-" then None else Some (Hashtbl.find pstores x) in
     Hashtbl.replace psketches p
